@@ -198,11 +198,10 @@ Theorem C16_printed_node_partial : forall (U : uni), ascii_ok U -> forall ty id,
 Proof. exact printed_node. Qed.
 Print Assumptions C16_printed_node_partial.
 
-(* predicate  "id"@[anchor] : id without double quote and backslash and not starting with ^ or @; anchor text
-   without double quote, ']' and ',' (RFC3339 times and the empty anchor qualify) *)
+(* predicate  "id"@[anchor] : id without double quote and backslash; anchor text without double quote, ']' and ','
+   (RFC3339 times and the empty anchor qualify).  Since repository fix F22 the id may start with ^^type: or @[ . *)
 Theorem C16_printed_predicate_partial : forall (U : uni), ascii_ok U -> forall id an,
-  (Forall (fun b => (bz b < 128)%Z /\ bz b <> 34%Z /\ bz b <> 92%Z) id /\
-   match id with [] => True | a :: _ => bz a <> 94%Z /\ bz a <> 64%Z end) ->
+  Forall (fun b => (bz b < 128)%Z /\ bz b <> 34%Z /\ bz b <> 92%Z) id ->
   Forall (fun b => (bz b < 128)%Z /\ bz b <> 34%Z /\ bz b <> 93%Z /\ bz b <> 44%Z) an ->
   let inp := x22 :: id ++ s_anchor ++ an ++ [x5d] in
   lex_with U inp = ([(ItemPredicate, 0, length inp); (ItemEOF, length inp, length inp)], true).
@@ -211,8 +210,7 @@ Print Assumptions C16_printed_predicate_partial.
 
 (* predicate bound  "id"@[lower,upper] *)
 Theorem C16_printed_bound_partial : forall (U : uni), ascii_ok U -> forall id a1 a2,
-  (Forall (fun b => (bz b < 128)%Z /\ bz b <> 34%Z /\ bz b <> 92%Z) id /\
-   match id with [] => True | a :: _ => bz a <> 94%Z /\ bz a <> 64%Z end) ->
+  Forall (fun b => (bz b < 128)%Z /\ bz b <> 34%Z /\ bz b <> 92%Z) id ->
   Forall (fun b => (bz b < 128)%Z /\ bz b <> 34%Z /\ bz b <> 93%Z /\ bz b <> 44%Z) a1 ->
   Forall (fun b => (bz b < 128)%Z /\ bz b <> 34%Z /\ bz b <> 93%Z /\ bz b <> 44%Z) a2 ->
   let inp := x22 :: id ++ s_anchor ++ (a1 ++ x2c :: a2) ++ [x5d] in
@@ -227,21 +225,24 @@ Example C16_printed_predicate_example :
 Proof.
   apply (C16_printed_predicate_partial go_uni C16_go_uni_ascii_ok [x70;x20;x71]
            [x32;x30;x30;x36;x2d;x30;x31;x2d;x30;x32;x54;x31;x35;x3a;x30;x34;x3a;x30;x35;x5a]).
-  - split; [repeat constructor; vm_compute; congruence|vm_compute; split; congruence].
+  - repeat constructor; vm_compute; congruence.
   - repeat constructor; vm_compute; congruence.
 Qed.
 
 (* ---- refuted outside those domains: printed values WITHOUT embedded double quote that are not one token *)
 (* predicate with id  a\  prints (%q) as  "a\\"@[]  : the lexer takes the second backslash + quote as an escaped quote;
-   predicate with id  ^^type:  prints as  "^^type:"@[]  : lexPredicateOrLiteral sees the literal marker at offset 0;
    text literal  a\  prints as  "a\"^^type:text *)
 Theorem C16_printed_predicate_refuted :
   kinds [x22;x61;x5c;x5c;x22;x40;x5b;x5d] = [ItemError] /\
-  kinds [x22;x5e;x5e;x74;x79;x70;x65;x3a;x22;x40;x5b;x5d] = [ItemError] /\
-  kinds [x22;x40;x5b;x78;x22;x40;x5b;x5d] = [ItemError] /\
   kinds [x22;x61;x5c;x22;x5e;x5e;x74;x79;x70;x65;x3a;x74;x65;x78;x74] = [ItemError].
 Proof. vm_compute. repeat split; reflexivity. Qed.
 Print Assumptions C16_printed_predicate_refuted.
+
+(* repaired by repository fix F22 (these were refuted witnesses before): ids that start with ^^type: or @[ *)
+Example C16_printed_predicate_marker_prefix_example :
+  kinds [x22;x5e;x5e;x74;x79;x70;x65;x3a;x22;x40;x5b;x5d] = [ItemPredicate; ItemEOF] /\
+  kinds [x22;x40;x5b;x78;x22;x40;x5b;x5d] = [ItemPredicate; ItemEOF].
+Proof. vm_compute. split; reflexivity. Qed.
 
 (* node whose type contains '>' ( /a> is accepted by node.NewType ) prints as  /a><b>  *)
 Theorem C16_printed_node_refuted :
